@@ -153,6 +153,13 @@ class _Expr(SymEval):
     def _e_Attribute_rec(self, n):
         if isinstance(n.value, ast.Name) and n.value.id in self.np_names:
             return super().e_Attribute(n)
+        if isinstance(n.value, ast.Name) and n.value.id not in self.env and getattr(self.owner, "ext_stubs", None):
+            # a class / constant of an external module handed on as a value (argparse.RawTextHelpFormatter given to a
+            # modelled ArgumentParser): an opaque token; any use other than passing it on is outside the fragment
+            mod = getattr(self.owner, "module", None) or (self.owner.cls.module if self.owner.cls else None)
+            r = self.owner.prog.resolve_expr(None, mod, n) if mod is not None else None
+            if r is not None and r[0] == "external":
+                return ("<external>", r[1])
         base = self.eval(n.value)
         if base is None:
             raise Raised("AttributeError")
@@ -213,6 +220,41 @@ class _Expr(SymEval):
             return sub.eval(body)
 
         return ("<function>", call)
+
+    def _super_call(self, n, name):
+        """`super().<name>(...)` inside a method: the next class of the package that defines it is interpreted; past the
+        package (an exception class of the standard library) `__init__` keeps the arguments and `__str__` renders them
+        as BaseException does."""
+        own = self.owner
+        meth = next((g for g in own.prog.funcs.values() if g.cls is not None and g.module is getattr(own, "module", None) and g.node.lineno <= n.lineno <= (g.node.end_lineno or g.node.lineno)), None)
+        if meth is None or not meth.posparams or not isinstance(self.env.get(meth.posparams[0]), Rec):
+            raise NotSymbolic("super() outside a method of a model object")
+        rec = self.env[meth.posparams[0]]
+        args = [self.eval(a) for a in n.args]
+        kw = {k.arg: self.eval(k.value) for k in n.keywords if k.arg is not None}
+        todo = list(meth.cls.node.bases)
+        seen = 0
+        while todo and seen < 16:
+            seen += 1
+            b = todo.pop(0)
+            r = own.prog.resolve_expr(None, meth.cls.module, b)
+            if r is not None and r[0] == "class":
+                if name in r[1].methods:
+                    m = r[1].methods[name]
+                    env = dict(zip(m.posparams[1:], args))
+                    env.update(kw)
+                    return own.run(m, rec, env)
+                todo = list(r[1].node.bases) + todo
+            elif r is not None and r[0] == "external" and r[1].split(".")[-1] in ("Exception", "Warning", "ValueError", "TypeError", "RuntimeError", "UserWarning", "BaseException"):
+                if name == "__init__" and not kw:
+                    rec.fields["args"] = tuple(args)
+                    return None
+                if name == "__str__" and not args and not kw:
+                    a_ = rec.fields.get("args", ())
+                    if all(isinstance(x, (str, int, float, type(None))) for x in a_):
+                        return str(a_[0]) if len(a_) == 1 else ("" if not a_ else str(tuple(a_)))
+                raise NotSymbolic(f"super().{name} of {r[1]}")
+        raise NotSymbolic(f"super().{name}: no base defines it")
 
     def _call_value(self, fv, args):
         """Call a model callable (a lambda, a nested function, a package function) held as a value."""
@@ -436,6 +478,8 @@ class _Expr(SymEval):
             for part in ast.unparse(f).split(".")[2:]:
                 mod_ = getattr(mod_, part)
             return tuple(mod_(int(deg)))  # numeric nodes and weights
+        if isinstance(f, ast.Attribute) and isinstance(f.value, ast.Call) and isinstance(f.value.func, ast.Name) and f.value.func.id == "super" and not f.value.args and "super" not in self.env:
+            return self._super_call(n, f.attr)
         if isinstance(f, ast.Attribute) and isinstance(f.value, ast.Attribute) and f.value.attr == "linalg" and isinstance(root, ast.Name) and root.id in self.np_names:
             from .symarr import ProgramError
 
@@ -1236,7 +1280,9 @@ class AccessorEval:
             gen_ok = bool(self.__dict__.get("eager_generators"))
             if g is None or any(isinstance(x, ast.Nonlocal) or (isinstance(x, (ast.Yield, ast.YieldFrom)) and not gen_ok) for x in ast.walk(st)) or st.decorator_list:
                 raise NotSymbolic(f"nested function {st.name}")
-            local[st.name] = ("<function>", lambda args, kw, g=g, local=local: self.run_free(g, args, kw, closure=local))
+            fn_ = lambda args, kw, g=g, local=local: self.run_free(g, args, kw, closure=local)  # noqa: E731
+            fn_.func = g  # (for reports: which nested function this value is)
+            local[st.name] = ("<function>", fn_)
             return
         if isinstance(st, ast.Global):
             local["<global names>"] = set(local.get("<global names>", ())) | set(st.names)
